@@ -82,6 +82,21 @@ func (in *Interp) ginWrite(c *ginCtx, code *smt.Term, body value) {
 	c.docs = append(c.docs, ginResp{status: code, body: body})
 }
 
+func (P *Program) registerGinCompare() {
+	P.reg(VHGIN+".SameAnswer", func(fr *frame, args []value) value {
+		in := fr.in
+		a, b := args[0].(structure), args[1].(structure)
+		respT := fr.fn.Signature.Params().At(0).Type()
+		st := in.equals(nil, a[structField(respT, "Status")], b[structField(respT, "Status")])
+		ba := a[structField(respT, "Body")].(iface)
+		bb := b[structField(respT, "Body")].(iface)
+		if ba.t == nil || bb.t == nil {
+			return in.C.And(st, in.C.BoolConst(ba.t == nil && bb.t == nil))
+		}
+		return in.C.And(st, in.deepEq(ba.v.(*opaque).data.(sliceVal), bb.v.(*opaque).data.(sliceVal)))
+	})
+}
+
 func (P *Program) registerGin() {
 	C := "(*" + ginPkg + ".Context)."
 	ctxArg := func(fr *frame, args []value) *ginCtx { return fr.in.ginCtxOf(args[0]) }
@@ -378,6 +393,11 @@ func (P *Program) registerGin() {
 		resp[structField(respT, "Aborted")] = in.boolv(c.aborted)
 		resp[structField(respT, "Panicked")] = in.boolv(panicked)
 		resp[structField(respT, "Opaque")] = in.boolv(c.opaque)
+		var bodies sliceVal
+		for _, d := range c.docs {
+			bodies = append(bodies, d.body)
+		}
+		resp[structField(respT, "Body")] = iface{t: types.Typ[types.UnsafePointer], v: &opaque{kind: "ginbody", data: bodies}}
 		if n := len(c.docs); n > 0 {
 			code, msg := in.ginErrFields(fr, c.docs[n-1].body)
 			resp[structField(respT, "ErrCode")] = code
@@ -385,6 +405,99 @@ func (P *Program) registerGin() {
 		}
 		return resp
 	})
+}
+
+// deepEq compares two values structurally (pointers are followed, slices compared by length
+// and elements): used to compare the documents of two responses.
+func (in *Interp) deepEq(x, y value) *smt.Term {
+	c := in.C
+	switch xv := x.(type) {
+	case nil:
+		return c.BoolConst(y == nil)
+	case *value:
+		yv, ok := y.(*value)
+		if !ok {
+			return c.False()
+		}
+		if xv == nil || yv == nil {
+			return c.BoolConst(xv == nil && yv == nil)
+		}
+		return in.deepEq(*xv, *yv)
+	case sliceVal:
+		yv, ok := y.(sliceVal)
+		if !ok || len(xv) != len(yv) {
+			return c.False()
+		}
+		cs := []*smt.Term{}
+		for i := range xv {
+			cs = append(cs, in.deepEq(xv[i], yv[i]))
+		}
+		return c.And(cs...)
+	case array:
+		yv, ok := y.(array)
+		if !ok || len(xv) != len(yv) {
+			return c.False()
+		}
+		cs := []*smt.Term{}
+		for i := range xv {
+			cs = append(cs, in.deepEq(xv[i], yv[i]))
+		}
+		return c.And(cs...)
+	case structure:
+		yv, ok := y.(structure)
+		if !ok || len(xv) != len(yv) {
+			return c.False()
+		}
+		cs := []*smt.Term{}
+		for i := range xv {
+			cs = append(cs, in.deepEq(xv[i], yv[i]))
+		}
+		return c.And(cs...)
+	case iface:
+		yv, ok := y.(iface)
+		if !ok {
+			return c.False()
+		}
+		if xv.t == nil || yv.t == nil {
+			return c.BoolConst(xv.t == nil && yv.t == nil)
+		}
+		if !types.Identical(xv.t, yv.t) {
+			return c.False()
+		}
+		return in.deepEq(xv.v, yv.v)
+	case *smap:
+		yv, ok := y.(*smap)
+		if !ok {
+			return c.False()
+		}
+		if xv == nil || yv == nil {
+			return c.BoolConst(xv == nil && yv == nil)
+		}
+		if len(xv.keys) != len(yv.keys) {
+			return c.False()
+		}
+		cs := []*smt.Term{}
+		for i := range xv.keys {
+			cs = append(cs, in.deepEq(xv.keys[i], yv.keys[i]), in.deepEq(xv.vals[i], yv.vals[i]))
+		}
+		return c.And(cs...)
+	case *opaque:
+		yv, ok := y.(*opaque)
+		if !ok {
+			return c.False()
+		}
+		if xv.kind == "json" && yv.kind == "json" {
+			return in.deepEq(xv.data.(value), yv.data.(value))
+		}
+		return c.BoolConst(xv == yv)
+	case *smt.Term, string, bstr, bigVal, timeVal, float64:
+		switch y.(type) {
+		case *smt.Term, string, bstr, bigVal, timeVal, float64:
+			return in.equals(nil, x, y)
+		}
+		return c.False()
+	}
+	panic(unsupported{fmt.Sprintf("deepEq on %T", x)})
 }
 
 func (in *Interp) panicMsg(tp targetPanic) string {
